@@ -59,6 +59,10 @@ pub enum AStmt {
     Select { t: u16, pred: APred },
     Bad { kind: BadKind, t: u16 },
     AddColumn { t: u16, ty: u8, default: Option<AVal> },
+    /// ALTER COLUMN: 0 SET DEFAULT, 1 DROP DEFAULT, 2 SET NOT NULL, 3 DROP NOT NULL
+    AlterCol { t: u16, col: u16, action: u8, val: AVal },
+    /// CREATE TABLE IF NOT EXISTS on an existing table (a no-op)
+    CreateIfNotExists { t: u16 },
     DropColumn { t: u16, col: u16 },
 }
 
@@ -90,6 +94,8 @@ impl AStmt {
             AStmt::Select { .. } => "select",
             AStmt::Bad { .. } => "bad_stmt",
             AStmt::AddColumn { .. } => "add_column",
+            AStmt::AlterCol { .. } => "alter_column",
+            AStmt::CreateIfNotExists { .. } => "create_if_not_exists",
             AStmt::DropColumn { .. } => "drop_column",
         }
     }
@@ -124,6 +130,7 @@ pub struct GenOpts {
     pub constraints: bool,
     pub composite_keys: bool,
     pub alter: bool,
+    pub alter_col: bool,
     pub w_select: u32,
     pub w_begin: u32,
     pub max_rows_per_insert: usize,
@@ -154,6 +161,7 @@ impl Default for GenOpts {
             constraints: true,
             composite_keys: false,
             alter: false,
+            alter_col: false,
             w_select: 4,
             w_begin: 3,
             max_rows_per_insert: 3,
@@ -222,10 +230,14 @@ pub fn gen_astmt(o: &GenOpts) -> BoxedStrategy<AStmt> {
         if o.create_index {
             v.push((1, (any::<u16>(), any::<u16>()).prop_map(|(t, col)| AStmt::CreateIndex { t, col }).boxed()));
         }
+        v.push((1, any::<u16>().prop_map(|t| AStmt::CreateIfNotExists { t }).boxed()));
     }
     if o.alter {
         v.push((2, (any::<u16>(), 0u8..5, prop::option::weighted(0.3, (0u8..12).prop_map(AVal::Pool))).prop_map(|(t, ty, default)| AStmt::AddColumn { t, ty, default }).boxed()));
         v.push((2, (any::<u16>(), any::<u16>()).prop_map(|(t, col)| AStmt::DropColumn { t, col }).boxed()));
+    }
+    if o.alter || o.alter_col {
+        v.push((3, (any::<u16>(), any::<u16>(), 0u8..4, (0u8..12).prop_map(AVal::Pool)).prop_map(|(t, col, action, val)| AStmt::AlterCol { t, col, action, val }).boxed()));
     }
     if o.bad {
         v.push((
@@ -426,6 +438,17 @@ pub fn stmt_tags(s: &Stmt, view: &State) -> Vec<String> {
         Stmt::Delete { .. } => t.push("delete".into()),
         Stmt::Select { .. } => t.push("select".into()),
         Stmt::Bad { .. } => t.push("bad_stmt".into()),
+        Stmt::AlterCol { table, col, change } => {
+            t.push("ddl.alter_column".into());
+            if *change == ColChange::SetNotNull && view.tables.get(table).map(|tb| tb.rows.values().any(|r| r[*col].is_null())).unwrap_or(false) {
+                t.push("ddl.set_not_null_on_column_with_nulls".into());
+            }
+            t.push(match change {
+                ColChange::SetDefault(_) | ColChange::DropDefault => "ddl.alter_column_default",
+                ColChange::SetNotNull | ColChange::DropNotNull => "ddl.alter_column_not_null",
+            }.into());
+        }
+        Stmt::NoOpDdl { .. } => t.push("ddl.create_if_not_exists".into()),
         Stmt::AddColumn { table, col } => {
             t.push("ddl.add_column".into());
             if col.default.is_some() {
@@ -539,6 +562,32 @@ pub fn resolve(a: &AStmt, view: &State) -> Stmt {
         AStmt::Select { t, pred } => match pick_table(*t) {
             Some(tb) => Stmt::Select { table: tb.def.name.clone(), pred: resolve_pred(pred, &tb.def) },
             None => missing("sel"),
+        },
+        AStmt::CreateIfNotExists { t } => match pick_table(*t) {
+            Some(tb) => Stmt::NoOpDdl { sql: format!("CREATE TABLE IF NOT EXISTS {} (zz INT)", tb.def.name) },
+            None => missing("cine"),
+        },
+        AStmt::AlterCol { t, col, action, val } => match pick_table(*t) {
+            Some(tb) => {
+                // columns outside unique keys
+                let free: Vec<usize> = (0..tb.def.cols.len()).filter(|c| !tb.def.uniques.iter().any(|u| u.contains(c))).collect();
+                if free.is_empty() {
+                    return Stmt::Bad { sql: format!("ALTER TABLE {} ALTER COLUMN nosuch_col SET NOT NULL", tb.def.name), why: "unknown column".into() };
+                }
+                let c = free[pick_idx(*col, free.len())];
+                let ty = tb.def.cols[c].ty;
+                let change = match action % 4 {
+                    0 => match resolve_val(val, ty) {
+                        Val::Null => ColChange::DropDefault,
+                        v => ColChange::SetDefault(v),
+                    },
+                    1 => ColChange::DropDefault,
+                    2 => ColChange::SetNotNull,
+                    _ => ColChange::DropNotNull,
+                };
+                Stmt::AlterCol { table: tb.def.name.clone(), col: c, change }
+            }
+            None => missing("altc"),
         },
         AStmt::AddColumn { t, ty, default } => match pick_table(*t) {
             Some(tb) => {
@@ -1062,7 +1111,7 @@ impl Interp {
                     if tags.iter().any(|t| t.starts_with("ddl.")) {
                         tags.push("ddl.concurrent".into());
                     }
-                    if self.txns.values().any(|t| t.effects.iter().any(|e| matches!(e, Effect::Create(_) | Effect::Drop(_) | Effect::AddUnique { .. } | Effect::AddColumn { .. } | Effect::DropColumn { .. }))) {
+                    if self.txns.values().any(|t| t.effects.iter().any(|e| matches!(e, Effect::Create(_) | Effect::Drop(_) | Effect::AddUnique { .. } | Effect::AddColumn { .. } | Effect::DropColumn { .. } | Effect::AlterCol { .. }))) {
                         tags.push("stmt.while_uncommitted_ddl_open".into());
                     }
                     if let Stmt::Insert { table, .. } = &s {
@@ -1216,6 +1265,11 @@ impl Interp {
                         }
                     }
                 }
+                if (self.txns.len() > 1 || self.model.epoch > txn.begin_epoch) && tags.iter().any(|t| t.starts_with("ddl.")) {
+                    // DDL in one session while another is open (the other session's snapshot must not change), or
+                    // on a snapshot that is no longer the latest committed state
+                    tags.push("ddl.concurrent".into());
+                }
                 for t in tags.clone() {
                     if t.starts_with("ddl.") || t == "stmt.fails_midway" {
                         tags.push(format!("{t}_in_txn"));
@@ -1245,7 +1299,7 @@ impl Interp {
                             Effect::Create(_) => "txn.noncommit_after_create",
                             Effect::Drop(_) => "txn.noncommit_after_drop",
                             Effect::AddUnique { .. } => "txn.noncommit_after_create_index",
-                            Effect::AddColumn { .. } | Effect::DropColumn { .. } => "txn.noncommit_after_alter",
+                            Effect::AddColumn { .. } | Effect::DropColumn { .. } | Effect::AlterCol { .. } => "txn.noncommit_after_alter",
                         });
                     }
                     let may_roll_back = !end_tags.iter().any(|t| self.excluded.contains_key(*t)) && matches!(stmt, Stmt::Insert { .. });
@@ -1394,7 +1448,7 @@ impl Interp {
                             Effect::Create(_) => "txn.noncommit_after_create",
                             Effect::Drop(_) => "txn.noncommit_after_drop",
                             Effect::AddUnique { .. } => "txn.noncommit_after_create_index",
-                            Effect::AddColumn { .. } | Effect::DropColumn { .. } => "txn.noncommit_after_alter",
+                            Effect::AddColumn { .. } | Effect::DropColumn { .. } | Effect::AlterCol { .. } => "txn.noncommit_after_alter",
                         }
                         .to_string(),
                     );
@@ -1491,7 +1545,7 @@ impl Interp {
                             Effect::Create(_) => "txn.noncommit_after_create",
                             Effect::Drop(_) => "txn.noncommit_after_drop",
                             Effect::AddUnique { .. } => "txn.noncommit_after_create_index",
-                            Effect::AddColumn { .. } | Effect::DropColumn { .. } => "txn.noncommit_after_alter",
+                            Effect::AddColumn { .. } | Effect::DropColumn { .. } | Effect::AlterCol { .. } => "txn.noncommit_after_alter",
                         };
                         tags.push(tg.to_string());
                     }
@@ -1609,7 +1663,7 @@ impl Interp {
                                     Effect::Create(_) => "txn.noncommit_after_create",
                                     Effect::Drop(_) => "txn.noncommit_after_drop",
                                     Effect::AddUnique { .. } => "txn.noncommit_after_create_index",
-                                    Effect::AddColumn { .. } | Effect::DropColumn { .. } => "txn.noncommit_after_alter",
+                                    Effect::AddColumn { .. } | Effect::DropColumn { .. } | Effect::AlterCol { .. } => "txn.noncommit_after_alter",
                                 }
                                 .to_string(),
                             );
